@@ -73,3 +73,10 @@ reg('C11', 'runtime monitoring: reference-model oracle per document kind over se
     'that very tree; every HTML-only pseudo-class is run on non-XHTML XML documents (incl. XHTML-namespaced '
     'descendants under a foreign root) and must select nothing.',
     'Trusted: vlib/refsel.py case rules; ASCII-only folding in generated i/type value comparisons.')
+reg('C12', 'runtime monitoring: reference-model oracle for namespace rules on namespace-aware documents x caller prefix maps',
+    'Generated XML documents (default/prefixed/redeclared/undeclared namespaces on elements and attributes; parsed and '
+    'API-built) and html5lib documents with SVG/MathML/xlink are queried with every namespace selector form under ten '
+    'caller maps each (faithful, swapped, partial, foreign, with default, default = other/empty); every select() is '
+    'compared with the reference namespace rules evaluated on a snapshot of the same tree with the same map.',
+    'Trusted: vlib/refsel.py m_tag/attr_value; prefixes never share a URI with the in-scope default namespace (bs4 then '
+    'reports the attribute under a bare name); non-subject type-less compounds under a default namespace are unspecified.')
